@@ -32,7 +32,10 @@ RULE = ('base scripts: 1-4 (quick, all of them) / up to 8 (thorough, random) '
         'Bracket sub-workload: every callback disables dispatching while '
         'it works and enables it again, 1-150 (and 400/600) events pending. '
         'Non-trivial = >=2 deferred events and a fault position that is '
-        'neither the first nor the last callback, or >=2 release cycles.')
+        'neither the first nor the last callback, or >=2 release cycles.'
+        " Rounds 9-13 added: keyword payloads named like the dispatcher's"
+        ' own parameters; injected exceptions of builtin types (IndexError,'
+        ' KeyError, StopIteration, ...).')
 ANCHORS = [
     'desper/events.py::EventDispatcher.dispatch',
     'desper/events.py::EventDispatcher.dispatch_enabled',
